@@ -8,6 +8,9 @@ def run(tier, seed):
     c07.NOT_COVERED.clear()
     for ob in c07.c08_obligations(tier):
         rep.add(ob)
+    from ..symnum import odeint_body
+    for ob in odeint_body.obligations():      # SIS_pair_based / SIS_heterogeneous_pairwise (tau=0, gamma=0 limits) integrate through _my_odeint_
+        rep.add(ob)
     from ..replay import tree_exact_native
     from . import util
     rep.add(util.native_ob('native:pair-based-exact-on-trees', 'EoN/analytic.py:SIR_pair_based_pure_IC / _dSIR_pair_based_', lambda: tree_exact_native.check(tier),
